@@ -59,7 +59,7 @@ def full_history(rng, cfg):
         if ident is None:
             ident = idc.get(c, rng.randrange(256))
             idc[c] = (ident + 1) % 256
-        pkt, info = pipeline.clean_request(rng, cfg, c, code=1, ident=ident, uname=uname, ma=rng.random() < 0.5)
+        pkt, info = pipeline.clean_request(rng, cfg, c, code=1, ident=ident, uname=uname, ma=True)  # always acceptable: the table must really fill up
         ops.append('op cpkt %d %d %s %s' % (c, now, pipeline.rnd40(rng), hx(pkt)))
         sent.append((c, pkt))
     for k in range(nreq):
